@@ -125,8 +125,15 @@ def Ghost.occupiedG (g : Ghost) (b : GBlock) : List (Nat × Nat) :=
   let gp := g.cfg.poolGran b.pool
   (g.occupied b).map fun (o, s) => (o / gp, s / gp)
 
+/-- reported spans are in address order and do not overlap -/
+def increasing : List (Nat × Nat) → Bool
+  | [] => true
+  | [_] => true
+  | x :: y :: r => decide (x.1 + x.2 ≤ y.1) && increasing (y :: r)
+
+/-- the sweep reports exactly the occupied intervals: in order, each one, nothing else -/
 def Ghost.sweepOk (g : Ghost) (b : GBlock) (sp : List (Nat × Nat)) : Bool :=
-  sp.length == (g.occupiedG b).length && sp.all (fun x => (g.occupiedG b).contains x) && (g.occupiedG b).all (fun x => sp.contains x)
+  increasing sp && sp.all (fun x => (g.occupiedG b).contains x) && (g.occupiedG b).all (fun x => sp.contains x)
 
 /-- the span (live or padding) that contains byte `addr` of block `blk` -/
 def Ghost.spanAt (g : Ghost) (blk addr : Nat) : Option (Nat × Nat) :=
